@@ -75,7 +75,7 @@ theorem C02_nan_rejected (P : Prims) (b : Int) :
     Constraints.le P (.float .nan) (.int b) = .error .valueError := by
   refine ⟨?_, ?_, ?_, ?_⟩ <;>
     simp [Constraints.gt, Constraints.lt, Constraints.ge, Constraints.le, Py.gt, Py.ge, Py.le, Py.lt,
-      Py.eq, Py.eqScalar, num?, isDecNan, NumV.lt, NumV.eq, bind, Except.bind, pure, Except.pure, throw, throwThe,
+      Py.eq, Py.eqScalar, num?, isDecNan, isDec, isFloatNan, NumV.lt, NumV.eq, bind, Except.bind, pure, Except.pure, throw, throwThe,
       MonadExceptOf.throw]
 
 /-! ### length / max_length / min_length -/
